@@ -355,6 +355,27 @@ func c04Child(a *ChildArgs) {
 	case "statements":
 		avoid := mon.AvoidFeatures()
 		base := a.Seed*7919 + int64(a.Shard)*104729
+		if a.Shard == 0 {
+			// a literal or quoted name whose whole content spells a keyword (or a compound keyword) is still a literal
+			// or a name for the parser: every quoting form the expression grammar takes (triple-quoted strings are lexical only), every such content
+			for _, content := range []string{"order by", "GROUP BY", "left join", "FULL OUTER JOIN", "cross join", "grouping sets", "select", "from", "ilike", "separator", "NULL"} {
+				forms := map[string]string{"single": "'" + content + "'", "dollar": "$$" + content + "$$", "dollar-tag": "$k$" + content + "$k$", "double": "\"" + content + "\"", "backtick": "`" + content + "`"}
+				for fname, lit := range forms {
+					for _, ctx := range []string{"SELECT %s FROM t", "SELECT a FROM t WHERE b = %s", "SELECT a, %s AS x FROM t ORDER BY a"} {
+						sql := fmt.Sprintf(ctx, lit)
+						a.Rec.Count("evaluations", 1)
+						a.Rec.Distinct("texts", sql)
+						if _, err := mustTokenizer().Tokenize([]byte(sql)); err != nil {
+							continue // this quoting form is not part of the lexical grammar (or the content needs escaping)
+						}
+						if _, err := gosqlx.Parse(sql); err != nil {
+							a.Rec.Viol("C04/statements/literal-read-as-keyword/"+fname+"/"+strings.ToUpper(content), "each element with its kind: the text of a literal or quoted name is never a keyword",
+								"rejected: "+firstLine(err.Error()), map[string]interface{}{"text": sql})
+						}
+					}
+				}
+			}
+		}
 		for i := 0; i < a.N; i++ {
 			seed := base + int64(i)*15485863
 			g := gen.New(rand.New(rand.NewSource(seed)), avoid)
